@@ -7,11 +7,14 @@ package service
 // height cannot abort. The queue iterations are taken as yielding arbitrary entries (their prefixes are sub-slices of
 // request ids, outside the key model), which is the stronger statement for "never halts".
 //@ func EndBlocker
-//@   property C13
-//@   requires height >= 0 && keeper.endBlockInv
+//@   property C08, C13
+//@   requires height >= 0 && keeper.endBlockInv && keeper.queueVals
 //@   requires k.feeCollectorName != "service_request_account" && k.feeCollectorName != "service_deposit_account"
-//@   invariant #1 inv: keeper.endBlockInv
+//@   invariant #1 inv: keeper.endBlockInv && keeper.queueVals
 //@   invariant @EndBlocker$3 #1 idx: rangeindex >= 0 - 1 && rangeindex < len(providers) && len(providers) == len(requestContext.Providers)
 //@   modifies bal, supply, bindings, earned, ownerEarned, requests, contexts, activeByID, activeByB, responses, newBatch, newBatchH, expBatch, expBatchH, volumes, pricings
+// queue hygiene (C08, C13): every new-batch entry due at this height has been handled and removed - whatever the
+// handler decided (issued, skipped, paused, no exchange rate) - so that no context is left with an entry in the past
+//@   ensures @C08,C13 new_queue_drained: forall i:Bytes :: !has(newBatch, i, height)
 //@   nopanic
 //@ end
